@@ -102,6 +102,7 @@ type Path struct {
 	lits      map[int]bool // literals implied by the path condition
 	models    []Model      // models known to satisfy the current path condition
 	initModel Model        // valid once the prefix has been replayed
+	blobs     []jsonBlob
 }
 
 func (p *Path) replaying() bool { return len(p.trail) < len(p.prefix) }
